@@ -288,6 +288,8 @@ def final (n : Nat) (ins : List (List Nat)) (src : List Nat) (B : Nat) : String 
 structure Item where
   val   : String            -- path of the file, or the parameter value
   lines : List String       -- the file's lines
+  aval   : String := ""     -- the same for the second out-port `aux` of the producing task (if it has one)
+  alines : List String := []
 deriving Inhabited
 
 structure Meta where
@@ -295,12 +297,18 @@ structure Meta where
   kind  : String            -- src | psrc | proc
   nfile : Nat               -- proc: number of file in-ports (a further in-port is the parameter port)
   pvals : List String       -- psrc: the values
+  takes : String := ""      -- proc: per file in-port `o` (upstream's out-port `out`) or `x` (its second out-port `aux`)
+  aux   : Bool := false     -- proc: has a second out-port
 
 def taskOf (m : Meta) (items : List Item) : Item :=
-  let files := items.take m.nfile
+  let files := ((items.take m.nfile).zip (m.takes.toList ++ List.replicate m.nfile 'o')).map fun (f, t) =>
+    if t == 'x' then ({ val := f.aval, lines := f.alines } : Item) else f
   let pv := (items.drop m.nfile).head?
-  let nm := m.name ++ String.join (files.map fun f => "." ++ f.val) ++ (match pv with | some p => "." ++ p.val | none => "") ++ ".o"
-  { val := nm, lines := files.flatMap (·.lines) ++ [m.name ++ "|out|" ++ (match pv with | some p => "p=" ++ p.val | none => "")] }
+  let stem := m.name ++ String.join (files.map fun f => "." ++ f.val) ++ (match pv with | some p => "." ++ p.val | none => "")
+  let par := match pv with | some p => "p=" ++ p.val | none => ""
+  let body := files.flatMap (·.lines)
+  { val := stem ++ ".o", lines := body ++ [m.name ++ "|out|" ++ par],
+    aval := if m.aux then stem ++ ".x" else "", alines := if m.aux then body ++ [m.name ++ "|aux|" ++ par] else [] }
 
 def mkVNet (n : Nat) (ins : List (List Nat)) (src : List Nat) (B : Nat) (ms : List Meta) : VNet n Item :=
   let m := fun (v : Fin n) => ms.getD v.val { name := "?", kind := "?", nfile := 0, pvals := [] }
@@ -320,7 +328,8 @@ def maximalV {n : Nat} (vn : VNet n Item) : Nat → VSt n Item → VSt n Item
     | some s' => maximalV vn fuel s'
 
 def showItems (l : List Item) : String :=
-  "\x1d".intercalate (l.map fun i => i.val ++ "\x1e" ++ "\x1e".intercalate i.lines)
+  "\x1d".intercalate (l.flatMap fun i =>
+    [i.val ++ "\x1e" ++ "\x1e".intercalate i.lines] ++ (if i.aval.isEmpty then [] else [i.aval ++ "\x1e" ++ "\x1e".intercalate i.alines]))
 
 /-- per process: what it has sent at the end of a maximal run; `zip=` tells whether this equals the zip
 semantics `den` (it must: `c04_network_sent_is_prefix`) -/
@@ -526,6 +535,7 @@ def handle (line : String) : String :=
     let inl := (if ins.isEmpty then [] else ins.splitOn ";").map fun p => if p == "-" then [] else parseNats p
     let ms := (if metas.isEmpty then [] else metas.splitOn ";").filterMap fun m => match m.splitOn ":" with
       | [nm, kind, nf, pv] => some ({ name := nm, kind := kind, nfile := nf.toNat!, pvals := if pv.isEmpty then [] else pv.splitOn "," } : NetRun.Meta)
+      | [nm, kind, nf, pv, takes, aux] => some ({ name := nm, kind := kind, nfile := nf.toNat!, pvals := if pv.isEmpty then [] else pv.splitOn ",", takes := takes, aux := aux == "1" } : NetRun.Meta)
       | _ => none
     NetRun.values n.toNat! inl (parseNats src) b.toNat! ms
   | ["fine.accept", n, ins, src, b, threads] =>
